@@ -71,8 +71,8 @@ def finish (s : State) (mv : Move) (p : Piece) (map : PieceMap) : State :=
     castleW := ⟨cw.kingside && test (map.get .white .rook) 7, cw.queenside && test (map.get .white .rook) 0⟩
     castleB := ⟨cb.kingside && test (map.get .black .rook) 63, cb.queenside && test (map.get .black .rook) 56⟩
     ep := if Move.isDoublePawn mv then offset (Move.dest mv) 0 us.backward else Option.none
-    halfmove := if Move.isCapture mv || p == .pawn then 0 else s.halfmove + 1
-    fullmove := if us == .black then s.fullmove + 1 else s.fullmove }
+    halfmove := if Move.isCapture mv || p == .pawn then 0 else clockSucc s.halfmove
+    fullmove := if us == .black then clockSucc s.fullmove else s.fullmove }
 
 /-- the codes in the capture / promotion fields are piece discriminants (`unwrap` does not panic) -/
 def CodesOk (mv : Move) : Prop :=
